@@ -12,7 +12,7 @@ CHECKS = {
     "C09": ("Hypothesis generated search + exhaustive small-alphabet sweep against a per-point reference model",
             "Generated-input search: every case is compared point by point with a slow pure-Python model written from "
             "the statement; thresholds are placed exactly on / one grid step beside interior spike magnitudes; all "
-            "series of length <=5 over {0,+-1,+-2,missing} are enumerated. Finds operator, index-offset and "
+            "series of length <=6 over {0,+-1,+-2,missing} (quick: <=4) are enumerated. Finds operator, index-offset and "
             "assignment-order edits; proves nothing beyond the explored cases.",
             "dyadic value grid (exact float arithmetic); numpy/pandas as installed; interior point with missing "
             "neighbour may be MISSING or UNKNOWN",
@@ -74,8 +74,8 @@ CHECKS.update({
             "whole history, are compared with freshly built equal objects and are cross-used between fixtures.",
             "pressure_increasing_test / valid_range_test get float64 arrays only; strictly increasing whole-second axes",
             "DESIGN.md 4 C01"),
-    "C02": ("Exhaustive enumeration of all 2^n missing-value placements (n<=8; joint value x auxiliary placements n<=5) + Hypothesis search; forward and converse predicates",
-            "For 10 tests, every placement of missing markers in the observation series (n<=8) and every joint placement in "
+    "C02": ("Exhaustive enumeration of all 2^n missing-value placements (n<=9; joint value x auxiliary placements n<=5) + Hypothesis search; forward and converse predicates",
+            "For 10 tests, every placement of missing markers in the observation series (n<=9) and every joint placement in "
             "(value, depth) / (lon, lat) (n<=5) is run over several value sequences and parameter families incl. every "
             "climatology member shape, and longer generated series under None/NaN/masked carriers; a missing observation "
             "must be MISSING (UNKNOWN only where the test is undefined anyway) and MISSING may only appear where a needed "
